@@ -17,6 +17,12 @@ n_fix = len([l for l in subprocess.check_output(['git', '-C', '/repo', 'log', '-
 out.append("\n%d `fix:` commits in /repo in total; none is listed as a *known* (unrepaired) finding: every defect met so far had a small repair.\n" % n_fix)
 out.append("### 14.4 Seeded property-breaking changes (from seeded/*/meta.json)\n")
 out.append("Each was written by a fresh sub-agent that saw only the property text and its own scratch worktree; each was confirmed independently (demo fails with the change, passes without; pinned suite green with the change).\n")
+metas = [json.load(open(m)) for m in sorted(glob.glob('/verif/seeded/*/meta.json'))]
+def first_try(d):
+    c = d['checks_run'].lower()
+    return not ('missed' in c or 'not detected' in c or 'after strengthening' in c)
+n = len(metas); ok1 = sum(1 for d in metas if first_try(d)); nd = sum(1 for d in metas if d['checks_run'].startswith('NOT DETECTED'))
+out.append("Three rounds, one change per applicable property and round (57 in all when complete): **%d kept so far, %d reported by the registered quick check at the first try, %d only after the check was strengthened (what was missing is said in the last column and in section 13), %d not detected.** Every change is re-applied to the final tree before the end (`git apply --check`) and the owning check re-run.\n" % (n, ok1, n - ok1 - nd, nd))
 out.append("| kept as | property | needs, in order to manifest | result of the registered check |")
 out.append("|---|---|---|---|")
 for m in sorted(glob.glob('/verif/seeded/*/meta.json')):
